@@ -132,9 +132,10 @@ class Report:
             "wall_s": round(wall, 2),
             "violations": len(self.violations),
         }
-        EVID.mkdir(exist_ok=True)
-        (EVID / f"{self.pid}.json").write_text(json.dumps(ev, indent=1))
-        validate_evidence(EVID / f"{self.pid}.json")
+        evdir = (VERIF / "out" / "evidence_scratch") if os.environ.get("VERIF_NOEVIDENCE") else EVID
+        evdir.mkdir(parents=True, exist_ok=True)
+        (evdir / f"{self.pid}.json").write_text(json.dumps(ev, indent=1))
+        validate_evidence(evdir / f"{self.pid}.json")
         print(
             f"[{self.pid}] tier={self.tier} states={self.states} traces={self.traces_validated} "
             f"cases={self.evaluations} distinct={len(self.distinct)} violations={len(self.violations)} "
